@@ -133,6 +133,11 @@ func c01Gen(rt *rapid.T) wProg {
 		case x < 59:
 			s := gInt(rt, 0, len(p.Sess)-1, "s")
 			p.Ops = append(p.Ops, wOp{K: "leave", S: s, T: gTopicFor(rt, p.Sess[s], false)})
+		case x < 60:
+			// an edit ({pub head.replace}) is the last message before the topic is unloaded or the server restarts
+			s := gInt(rt, 0, len(p.Sess)-1, "s")
+			p.Ops = append(p.Ops, wOp{K: "pub", S: s, T: "g0"}, wOp{K: "pub", S: s, T: "g0", H: map[string]any{"replace": ":1"}},
+				wOp{K: gPick(rt, []string{"reload", "restart"}, "how"), T: "g0"}, wOp{K: "sub", S: s, T: "g0"}, wOp{K: "pub", S: s, T: "g0"})
 		case x < 61:
 			// one participant deletes the P2P subscription, the topic is unloaded, loaded back by a
 			// new {sub} and numbering goes on (the topic row exists, one subscription is missing)
